@@ -274,6 +274,8 @@ class Model:
         return _wrapb(_zor([self.isinstance1(it, v, k) for k in cs]))
 
     def isinstance1(self, it, v, c):
+        if isinstance(c, Builtin) and c.name in ("list", "tuple", "set", "dict", "bool"):
+            c = ClassRef(c.name)
         if not isinstance(c, ClassRef):
             raise Unsupported("isinstance with non-class")
         n = c.name
@@ -648,6 +650,7 @@ class Model:
         else:
             res = p.fresh_sv(c.ret, "r_" + c.method_name)
         cc.result = res
+        p.call_marks[-1].append(len(p.pc))   # [name, before-result, after-post, after-result]
         if c.post is not None:
             ps = c.post(cc)
             if isinstance(ps, (list, tuple)):
